@@ -36,7 +36,7 @@ var sawPanic bool
 // ---------------------------------------------------------------- scripted connection
 
 type ev struct {
-	kind byte // 'd' deliver, 'f' fail, 'x' deliver+fail
+	kind byte // 'd' deliver, 'f' fail, 'x' deliver+fail, 'w' park the reader until the harness opens the gate (op mux2 only)
 	n    int
 	e    byte // 'e' eof, 't' timeout, 'o' other
 }
@@ -47,6 +47,8 @@ func (e ev) String() string {
 		return fmt.Sprintf("d%d", e.n)
 	case 'f':
 		return fmt.Sprintf("f%c", e.e)
+	case 'w':
+		return "w"
 	}
 	return fmt.Sprintf("x%d.%c", e.n, e.e)
 }
@@ -111,14 +113,35 @@ type fakeConn struct {
 	closed   bool
 	closeCh  chan struct{}
 	nClose   int
+	// the gate of a 'w' event: the reader parks (holding no lock) until open() is called
+	gate     chan struct{}
+	atGate   chan struct{}
+	parked   bool
+	gateOnce sync.Once
 }
 
 func newFake(stream []byte, evs []ev) *fakeConn {
-	return &fakeConn{rem: append([]byte(nil), stream...), evs: append([]ev(nil), evs...), closeCh: make(chan struct{})}
+	return &fakeConn{rem: append([]byte(nil), stream...), evs: append([]ev(nil), evs...), closeCh: make(chan struct{}),
+		gate: make(chan struct{}), atGate: make(chan struct{})}
 }
 
+func (c *fakeConn) open() { c.gateOnce.Do(func() { close(c.gate) }) }
+
 func (c *fakeConn) Read(p []byte) (int, error) {
-	c.mu.Lock()
+	for {
+		c.mu.Lock()
+		if !c.closed && !c.timedOut && len(p) > 0 && len(c.evs) > 0 && c.evs[0].kind == 'w' {
+			c.evs = c.evs[1:]
+			if !c.parked {
+				c.parked = true
+				close(c.atGate)
+			}
+			c.mu.Unlock()
+			<-c.gate
+			continue
+		}
+		break
+	}
 	defer c.mu.Unlock()
 	if c.closed {
 		return 0, errClosed
@@ -283,6 +306,7 @@ type muxObs struct {
 	extra    string // second delivery / close after delivery
 	drained  []byte
 	drainErr string
+	parked   bool // mux2: the connection really was parked at its gate while the other one was served
 }
 
 // watchdog budgets of the scripted run: the scripted connection never blocks, so a wait only
@@ -364,6 +388,241 @@ func (r *muxRig) runCase(stream []byte, evs []ev, sizes []int, drain bool, budge
 	default:
 	}
 	return
+}
+
+// ---------------------------------------------------------------- two connections interleaved
+//
+// The multiplexer serves every accepted connection in its own goroutine; what happens to
+// one connection must not depend on the others.  The interleaving is forced: connection A
+// parks inside a matcher's read (event 'w' of its script) after some bytes of its first
+// line; while it is parked, connection B is accepted, routed and read completely; then A's
+// gate is opened.  Each of the two must be routed and read exactly as when it is served alone.
+
+func stripGate(evs []ev) []ev {
+	var out []ev
+	for _, e := range evs {
+		if e.kind != 'w' {
+			out = append(out, e)
+		}
+	}
+	return out
+}
+
+type pairSide struct {
+	fc     *fakeConn
+	routed bool
+	got    acc
+	closed bool
+}
+
+// await waits until one of the wanted things has happened to one of the two connections:
+// it was handed to a service, it was closed, or (wantGate) A is parked at its gate
+func (r *muxRig) awaitPair(a, b *pairSide, target *pairSide, wantGate bool, budget time.Duration) (ok bool) {
+	t := time.NewTimer(budget)
+	defer t.Stop()
+	for {
+		if target.routed || target.closed {
+			return true
+		}
+		var gateCh <-chan struct{}
+		if wantGate {
+			gateCh = target.fc.atGate
+		}
+		select {
+		case g := <-r.accepted:
+			var under net.Conn
+			if lc, isConn := g.conn.(*listener.Conn); isConn {
+				under = lc.Conn
+			}
+			switch {
+			case a != nil && under == net.Conn(a.fc):
+				a.routed, a.got = true, g
+			case b != nil && under == net.Conn(b.fc):
+				b.routed, b.got = true, g
+			}
+		case <-target.fc.closeCh:
+			target.closed = true
+		case <-gateCh:
+			return true
+		case <-t.C:
+			return false
+		}
+	}
+}
+
+func (r *muxRig) observe(side *pairSide, stream []byte, sizes []int, drain bool) (o muxObs) {
+	fc := side.fc
+	if side.closed && !side.routed {
+		o.route, o.closed, o.reads = "closed", true, "-"
+		o.deadline, _ = fc.state()
+		return
+	}
+	o.route = side.got.svc
+	var parts []string
+	for _, k := range sizes {
+		buf := make([]byte, k)
+		n, err := side.got.conn.Read(buf)
+		parts = append(parts, Hx(buf[:n])+":"+errName(err))
+		o.all = append(o.all, buf[:n]...)
+		o.lastErr = errName(err)
+	}
+	o.reads = "-"
+	if len(parts) > 0 {
+		o.reads = strings.Join(parts, ";")
+	}
+	o.deadline, o.closed = fc.state()
+	o.drained = append([]byte(nil), o.all...)
+	o.drainErr = o.lastErr
+	for i := 0; drain && i < 1<<16 && (o.drainErr == "-" || o.drainErr == "") && len(o.drained) <= len(stream)+64; i++ {
+		buf := make([]byte, 8192)
+		n, err := side.got.conn.Read(buf)
+		o.drained = append(o.drained, buf[:n]...)
+		o.drainErr = errName(err)
+	}
+	return
+}
+
+func obsLine(o muxObs) string {
+	return fmt.Sprintf("route=%s reads=%s closed=%s deadline=%s drained=%d:%s", o.route, o.reads, B01(o.closed), B01(o.deadline), len(o.drained), o.drainErr)
+}
+
+// runPair: A (script with a gate) and B interleaved as described above
+func (r *muxRig) runPair(ka, kb muxCase, budget time.Duration) (oa, ob muxObs, expired bool, panicked string) {
+	defer func() {
+		if x := recover(); x != nil {
+			panicked = fmt.Sprint(x)
+		}
+	}()
+	a := &pairSide{fc: newFake(ka.stream, ka.evs)}
+	b := &pairSide{fc: newFake(kb.stream, stripGate(kb.evs))}
+	defer a.fc.open()
+	feed := func(fc *fakeConn) bool {
+		select {
+		case r.root.ch <- fc:
+			return true
+		case <-time.After(budget):
+			return false
+		}
+	}
+	if !feed(a.fc) || !r.awaitPair(a, nil, a, true, budget) {
+		return oa, ob, true, ""
+	}
+	if !feed(b.fc) || !r.awaitPair(a, b, b, false, budget) {
+		return oa, ob, true, ""
+	}
+	ob = r.observe(b, kb.stream, kb.sizes, isCleanEvs(stripGate(kb.evs)))
+	parked := !a.routed && !a.closed
+	a.fc.open()
+	if !r.awaitPair(a, b, a, false, budget) {
+		return oa, ob, true, ""
+	}
+	oa = r.observe(a, ka.stream, ka.sizes, isCleanEvs(stripGate(ka.evs)))
+	oa.parked = parked
+	return
+}
+
+func (r *muxRig) runAlone(k muxCase, budget time.Duration) (o muxObs, expired bool, panicked string) {
+	defer func() {
+		if x := recover(); x != nil {
+			panicked = fmt.Sprint(x)
+		}
+	}()
+	a := &pairSide{fc: newFake(k.stream, stripGate(k.evs))}
+	select {
+	case r.root.ch <- a.fc:
+	case <-time.After(budget):
+		return o, true, ""
+	}
+	if !r.awaitPair(a, nil, a, false, budget) {
+		return o, true, ""
+	}
+	return r.observe(a, k.stream, k.sizes, isCleanEvs(stripGate(k.evs))), false, ""
+}
+
+func pairLine(ka, kb muxCase) string {
+	return fmt.Sprintf("c19 mux2 %s %s %s %s %s %s", Hx(ka.stream), evsString(ka.evs), intsString(ka.sizes), Hx(kb.stream), evsString(kb.evs), intsString(kb.sizes))
+}
+
+func runPairs(c *Ctx) {
+	type pair struct{ a, b muxCase }
+	var pairs []pair
+	for _, l := range c.CorpusLines() {
+		f := strings.Fields(l)
+		if len(f) == 8 && f[0] == "c19" && f[1] == "mux2" {
+			pairs = append(pairs, pair{muxCase{stream: Unhx(f[2]), evs: parseEvs(f[3]), sizes: parseInts(f[4])}, muxCase{stream: Unhx(f[5]), evs: parseEvs(f[6]), sizes: parseInts(f[7])}})
+		}
+	}
+	if c.Replay == "" {
+		n := c.Budget(1500, 20000)
+		for i := 0; i < n; i++ {
+			la, lb := genLine(c), genLine(c)
+			sa, sb := la.stream(), lb.stream()
+			// A: some bytes of the sniffed region, then the gate, then the rest in any segmentation
+			evsA := []ev{{kind: 'd', n: 1 + c.Rng.Intn(17)}}
+			if c.Rng.Chance(30) {
+				evsA = append([]ev{{kind: 'd', n: 1 + c.Rng.Intn(4)}}, evsA...)
+			}
+			if c.Rng.Chance(10) {
+				evsA = nil // parked before its first byte
+			}
+			evsA = append(evsA, ev{kind: 'w'})
+			evsA = append(evsA, genEvs(c, len(sa), c.Rng.Chance(80))...)
+			evsB := genEvs(c, len(sb), c.Rng.Chance(80))
+			pairs = append(pairs, pair{muxCase{stream: sa, evs: evsA, sizes: genSizes(c, len(sa))}, muxCase{stream: sb, evs: evsB, sizes: genSizes(c, len(sb))}})
+		}
+	}
+	if len(pairs) == 0 {
+		return
+	}
+	rig := newRig()
+	defer func() { rig.root.Close() }()
+	fresh := func() {
+		rig.root.Close()
+		rig = newRig()
+	}
+	for _, p := range pairs {
+		line := pairLine(p.a, p.b)
+		c.Eval(line, len(p.a.stream) > 0 && len(p.b.stream) > 0)
+		// each one alone (this is what the `mux` cases compare with the model) ...
+		aloneA, e1, p1 := rig.runAlone(p.a, muxBudget)
+		aloneB, e2, p2 := rig.runAlone(p.b, muxBudget)
+		if e1 || e2 || p1 != "" || p2 != "" {
+			c.Count("mux2-skipped-alone-run-stuck-or-panicked") // reported by the `mux` cases
+			fresh()
+			continue
+		}
+		// ... and the two interleaved
+		oa, ob, expired, pan := rig.runPair(p.a, p.b, muxBudget)
+		if expired {
+			c.Count("mux-rerun-with-long-budget")
+			fresh()
+			oa, ob, expired, pan = rig.runPair(p.a, p.b, muxLongBudget)
+		}
+		if expired {
+			c.Find(Finding{Kind: "oracle", Class: "connection-neither-delivered-nor-closed", Case: line, Impl: "with a second connection in flight: neither handed to a service nor closed after " + muxLongBudget.String(), Spec: obsLine(aloneA) + " / " + obsLine(aloneB)})
+			fresh()
+			continue
+		}
+		if pan != "" {
+			c.Find(Finding{Kind: "oracle", Class: "sniffer-panic", Case: line, Impl: "panic: " + pan, Spec: "no panic"})
+			fresh()
+			continue
+		}
+		c.Count("mux2-pair-" + oa.route + "+" + ob.route)
+		if oa.parked {
+			c.Count("mux2-first-connection-parked-inside-a-matcher")
+		} else {
+			c.Count("mux2-first-connection-routed-before-its-gate")
+		}
+		if obsLine(oa) != obsLine(aloneA) || !bytes.Equal(oa.drained, aloneA.drained) {
+			c.Find(Finding{Kind: "oracle", Class: "concurrent-connections-interfere", Case: line, Impl: trunc([]byte(obsLine(oa)), 300), Spec: trunc([]byte(obsLine(aloneA)), 300),
+				Detail: "the connection that was parked inside a matcher's read while another connection was served is treated differently from the same connection served alone"})
+		}
+		if obsLine(ob) != obsLine(aloneB) || !bytes.Equal(ob.drained, aloneB.drained) {
+			c.Find(Finding{Kind: "oracle", Class: "concurrent-connections-interfere", Case: line, Impl: trunc([]byte(obsLine(ob)), 300), Spec: trunc([]byte(obsLine(aloneB)), 300),
+				Detail: "the connection served while another one was parked inside a matcher's read is treated differently from the same connection served alone"})
+		}
+	}
 }
 
 // ---------------------------------------------------------------- generators
@@ -601,6 +860,7 @@ func parseEvs(s string) []ev {
 			fmt.Sscanf(t[1:], "%d", &e.n)
 		case 'f':
 			e.e = t[1]
+		case 'w':
 		case 'x':
 			var ec string
 			parts := strings.SplitN(t[1:], ".", 2)
@@ -646,6 +906,7 @@ func run(c *Ctx) {
 		return
 	}
 	runMux(c)
+	runPairs(c)
 	if c.Replay == "" {
 		runLoopback(c)
 	}
